@@ -343,7 +343,7 @@ Theorem full_segment_J_R (mu0 : R) (ox oy oz : R) (p : @vec RNum) (r1 r2 h phi1 
   (((r1 = 0 \/ r1 < r) /\ r <= r2 /\ Rabs oz <= h / 2) -> @full_cylinder_spec RNum (@cyl_JM_row RNum mu0) FJ x = p) /\
   (((0 < r1 /\ r <= r1) \/ r2 < r \/ h / 2 < Rabs oz) -> @full_cylinder_spec RNum (@cyl_JM_row RNum mu0) FJ x = vzero3).
 Proof.
-  intros x r Hr1 Hr2. unfold x, full_cylinder_spec, outer_row, inner_row, cyl_JM_row, cyl_JM.
+  intros x r Hr1 Hr2. unfold x, full_cylinder_spec, outer_row, inner_row, cyl_JM_row, cyl_JM_row_gen, cyl_JM_gen. fold (@cyl_inside RNum).
   cbn [nmul nofZ nsqrt nadd RNum]. fold r.
   pose proof (cyl_inside_R r oz (2 * r2) h ltac:(lra)) as Ho.
   replace (2 * r2 / 2) with r2 in Ho by lra.
@@ -374,7 +374,7 @@ Theorem full_segment_M_R (mu0 : R) (x : @srow RNum) : mu0 <> 0 ->
   @full_cylinder_spec RNum (@cyl_JM_row RNum mu0) FM x = vdivs (@full_cylinder_spec RNum (@cyl_JM_row RNum mu0) FJ x) mu0.
 Proof.
   intros Hmu. destruct x as [[[[ox oy] oz] p] [[[[r1 r2] h] phi1] phi2]].
-  unfold full_cylinder_spec, outer_row, inner_row, cyl_JM_row, cyl_JM.
+  unfold full_cylinder_spec, outer_row, inner_row, cyl_JM_row, cyl_JM_row_gen, cyl_JM_gen.
   destruct (neqb RNum r1 (nofZ RNum 0)); [reflexivity|].
   destruct p as [[a b] c].
   repeat match goal with |- context[if ?c then _ else _] => destruct c end; simpl;
